@@ -71,6 +71,9 @@ func scenario(sp *api, script []letter) e1lib.Scenario {
 			ouroboros.WithServer(sp.server),
 			ouroboros.WithDelayProtocolStart(true),
 		}
+		if sp.duplex {
+			opts = append(opts, ouroboros.WithFullDuplex(true))
+		}
 		if sp.opts != nil {
 			opts = append(opts, sp.opts(h)...)
 		}
@@ -89,6 +92,9 @@ func scenario(sp *api, script []letter) e1lib.Scenario {
 					if err := p(conn, h); err != nil {
 						rt.Log("api%d prelude failed: %v", i, err)
 					}
+				}
+				if call.delay > 0 {
+					vtime.Sleep(call.delay)
 				}
 				rt.Log("api%d-call %s", i, call.name)
 				res := call.run(conn, h)
@@ -219,7 +225,11 @@ func TestC15(t *testing.T) {
 func TestSpike(t *testing.T) {
 	want := os.Getenv("VERIF_ONLY")
 	for _, sp := range apis() {
-		for _, sc := range scripts(sp.letters, 2) {
+		ml := 2
+		if sp.maxLen > 0 {
+			ml = sp.maxLen
+		}
+		for _, sc := range scripts(sp.letters, ml) {
 			s := scenario(sp, sc)
 			if want != "" && s.Name != want {
 				continue
